@@ -17,10 +17,11 @@ func init() { register("C03", "logger", runC03) }
 
 // taint kinds
 const (
-	tPtr    = "pointer into the receiver's memory"
-	tSlice  = "slice sharing the receiver's backing array"
-	tClip   = "clipped slice (append reallocates, elements still shared)"
-	tStruct = "copy of the receiver's struct value"
+	tPtr     = "pointer into the receiver's memory"
+	tSlice   = "slice sharing the receiver's backing array"
+	tClip    = "clipped slice (append reallocates, elements still shared)"
+	tStruct  = "copy of the receiver's struct value"
+	tCellPtr = "captured variable holding a pointer into the receiver's memory"
 )
 
 type mutFinding struct {
@@ -111,6 +112,10 @@ func (m *mutAnalysis) analyse(fn *ssa.Function, seeds map[ssa.Value]string) []mu
 					}
 				}
 			case *ssa.UnOp:
+				if x.Op == token.MUL && x.X == v && k == tCellPtr {
+					mark(x, tPtr) // the captured variable's value
+					continue
+				}
 				if x.Op != token.MUL || x.X != v || k != tPtr {
 					continue
 				}
@@ -184,6 +189,26 @@ func (m *mutAnalysis) analyse(fn *ssa.Function, seeds map[ssa.Value]string) []mu
 								mark(ld, tPtr)
 							}
 						}
+					} else if ok && capturedVar(a) {
+						// a variable captured by closures of this function (`h` used inside `r.Attrs(func…)`): loads here and
+						// in the closures see the pointer
+						for _, u := range *a.Referrers() {
+							switch y := u.(type) {
+							case *ssa.UnOp:
+								if y.Op == token.MUL {
+									mark(y, tPtr)
+								}
+							case *ssa.MakeClosure:
+								cl := y.Fn.(*ssa.Function)
+								sub := map[ssa.Value]string{}
+								for i, b := range y.Bindings {
+									if b == ssa.Value(a) {
+										sub[cl.FreeVars[i]] = tCellPtr
+									}
+								}
+								out = append(out, m.analyse(cl, sub)...)
+							}
+						}
 					}
 				}
 			case *ssa.MapUpdate:
@@ -197,6 +222,30 @@ func (m *mutAnalysis) analyse(fn *ssa.Function, seeds map[ssa.Value]string) []mu
 	}
 	m.memo[key] = out
 	return out
+}
+
+// capturedVar: a heap cell that is only assigned, read and captured by closures (a local variable or parameter that a
+// function literal refers to).
+func capturedVar(a *ssa.Alloc) bool {
+	if a.Referrers() == nil {
+		return false
+	}
+	for _, u := range *a.Referrers() {
+		switch y := u.(type) {
+		case *ssa.Store:
+			if y.Addr != ssa.Value(a) {
+				return false
+			}
+		case *ssa.UnOp:
+			if y.Op != token.MUL {
+				return false
+			}
+		case *ssa.MakeClosure, *ssa.DebugRef:
+		default:
+			return false
+		}
+	}
+	return true
 }
 
 func isSyncType(t types.Type) bool {
